@@ -137,6 +137,11 @@ class HTail(H):
             it.stubs[getattr(F, name)] = lambda words, i: self.prepared[i]
         it.stubs[F.extract_reference_citations] = lambda citation, document: list(self.refs_for.get(id(citation), [])) if self.with_refs else []
         it.stubs[F.Document] = lambda **kw: self.doc
+        # parallel-citation detection is recorded, not executed: which (citation, predecessor) pairs are compared
+        # must not depend on whether reference citations were collected
+        import eyecite.models as M
+
+        it.stubs[M.FullCaseCitation.is_parallel_citation] = lambda slf, pre: self.par_log.append((id(slf), id(pre)))
 
     def run(self):
         M, eng = self.M, self.eng
@@ -179,10 +184,14 @@ class HTail(H):
         self.doc.tokenize = lambda tokenizer=None: None
         self.cs = cs
         self.with_refs = True
+        self.par_log = []
         out_default = self.interp.call(self.F.get_citations, ("some text",), {})
+        log_refs = list(self.par_log)
         out_unamb = self.interp.call(self.F.get_citations, ("some text",), {"remove_ambiguous": True})
         self.with_refs = False
+        self.par_log = []
         out_norefs = self.interp.call(self.F.get_citations, ("some text",), {})
+        self.par_same = log_refs == list(self.par_log)
         return cs, out_default, out_unamb, out_norefs
 
     def judge(self, kind, out):
@@ -200,7 +209,7 @@ class HTail(H):
             self.check("C03:no_overlapping_or_identical_spans", nolap, self.witness),
             self.check("C03:keeps_every_nonreference_and_invents_nothing", z3.BoolVal(keep), self.witness),
             self.check("C18:remove_ambiguous_returns_exactly_the_unambiguous_of_the_default_run", z3.BoolVal(ok_u), self.witness),
-            self.check("C19:references_leave_the_other_citations_unchanged", z3.BoolVal(ok_nr), self.witness),
+            self.check("C19:references_leave_the_other_citations_unchanged", z3.BoolVal(ok_nr and self.par_same), self.witness),
         ]
 
 
